@@ -972,6 +972,12 @@ func (ex *Exec) evalCall(st *State, n *node, e *env) Val {
 		return term(sel(st.region("G!pushedat", arr("Int", "Int")), arg(0).T), tInt)
 	case "msgline":
 		return term(sel(st.region("G!msgline", arr("Int", "String")), arg(0).T), tString)
+	case "rdgood":
+		return term(sel(st.region("G!rdgood", arr("Int", "Int")), arg(0).T), tInt)
+	case "dirname":
+		return term(sel(st.region("G!dirent_name", arr("Int", "String")), arg(0).T), tString)
+	case "isdir":
+		return term(sel(st.region("G!dirent_isdir", arr("Int", "Bool")), arg(0).T), tBool)
 	case "rdrec":
 		return term(sel(st.region("G!rdrec", arr("Int", "Int")), arg(0).T), tInt)
 	case "rdstream":
